@@ -52,8 +52,9 @@ fn iso_strategy() -> impl Strategy<Value = Iso> {
         any::<u64>(),
         proptest::sample::select(&[10u64, 60, 120][..]),
         0usize..3,
+        prop_oneof![4 => Just(false), 1 => Just(true)],
     )
-        .prop_map(|((na, nb, a_amountless, b_amountless, splits), (a_ok, b_ok, a_parts, b_funded, a_funded, b_parts), (k, _), shuffle, seed, mpp, a_rejecting)| {
+        .prop_map(|((na, nb, a_amountless, b_amountless, splits), (a_ok, b_ok, a_parts, b_funded, a_funded, b_parts), (k, _), shuffle, seed, mpp, a_rejecting, stuck_poll)| {
             let cfg = Cfg { mpp_timeout_s: mpp, ..Cfg::default() };
             let pa = PaymentSpec { preimage: if seed % 2 == 0 { 0x04 } else { 0x11 }, // sha256(32 x 0x04) and sha256(32 x 0x22) share their first byte
                 invoice_amount: if a_amountless { None } else { Some(1_000_000) }, tlv_amount: 777_000, hints: Hints::None, explicit_payee: false, recipient_ok: a_ok, drain_parts: a_parts };
@@ -87,6 +88,12 @@ fn iso_strategy() -> impl Strategy<Value = Iso> {
             let mut scn = blank(vec![pa, pb], htlcs, seed);
             scn.cfg = cfg;
             scn.freeze = Some((0, k));
+            if stuck_poll {
+                // a periodic getinfo poll that lightningd never answers is outstanding while both payments run
+                scn.manual_getinfo = true;
+                scn.freeze_polls = true;
+                scn.steps = vec![Step::Tick(13)];
+            }
             Iso { scn }
         })
 }
